@@ -63,13 +63,15 @@ Record cfg := { my_asn : N; peer_asn : N; universe : list key }.
 
 Record sess := { closed : bool; conn : option N; synced : bool;  (* first flush done on this connection *)
                  advertised : table; pending : option table; fbasn : bool }.
-Record peer := { up : option N; ptable : table }.
+Record peer := { up : option N; ptable : table;
+                 pcap : bool }.   (* 4-octet AS capability the peer announced in the OPEN of ITS current connection:
+                                     the width with which it parses AS_PATH *)
 Record world := { ws : sess; wp : peer;
                   desired : table }.   (* ghost: the last accepted Set *)
 
 Definition world0 : world :=
   {| ws := {| closed := false; conn := None; synced := false; advertised := empty; pending := None; fbasn := false |};
-     wp := {| up := None; ptable := empty |}; desired := empty |}.
+     wp := {| up := None; ptable := empty; pcap := false |}; desired := empty |}.
 
 (* abort(): close the connection, fold the pending set into advertised *)
 Definition abort (s : sess) : sess :=
@@ -101,7 +103,7 @@ Definition covers (c : cfg) (need : key -> bool) (ord : list key) : bool :=
 
 Definition deliver (p : peer) (c : N) (ms : list smsg) : peer :=
   match up p with
-  | Some c' => if c' =? c then {| up := up p; ptable := apply_msgs (ptable p) ms |} else p
+  | Some c' => if c' =? c then {| up := up p; ptable := apply_msgs (ptable p) ms; pcap := pcap p |} else p
   | None => p
   end.
 
@@ -123,7 +125,7 @@ Definition step (c : cfg) (w : world) (e : sev) : option world :=
     else if acc then
       Some {| ws := {| closed := false; conn := Some id; synced := false; advertised := advertised s;
                        pending := pending s; fbasn := fb |};
-              wp := {| up := Some id; ptable := empty |}; desired := desired w |}
+              wp := {| up := Some id; ptable := empty; pcap := fb |}; desired := desired w |}
     else Some w
   | EDialFail => if closed s || is_some (conn s) then None else Some w
   | EFirstFlush ord sent =>
@@ -166,7 +168,7 @@ Definition step (c : cfg) (w : world) (e : sev) : option world :=
     | None => Some w
     end
   | EKeepaliveFail => if closed s || negb (is_some (conn s)) then None else Some (with_sess w (abort s))
-  | EPeerDrop => Some {| ws := s; wp := {| up := None; ptable := empty |}; desired := desired w |}
+  | EPeerDrop => Some {| ws := s; wp := {| up := None; ptable := empty; pcap := pcap (wp w) |}; desired := desired w |}
   | EClose => Some (with_sess w (abort {| closed := true; conn := conn s; synced := synced s; advertised := advertised s;
                                           pending := pending s; fbasn := fbasn s |}))
   end.
@@ -194,6 +196,10 @@ Definition emitted (c : cfg) (w : world) (e : sev) : list smsg :=
   end.
 Definition dials (e : sev) : bool :=
   match e with EHandshake _ _ _ _ | EDialFail => true | _ => false end.
+
+(* the AS-number width with which a step encodes the UPDATEs it writes
+   (sendUpdates: fbasn := s.peerFBASNSupport, read under s.mu in the flush) *)
+Definition emit_width (w : world) : bool := fbasn (ws w).
 
 (* connection established on both sides and the sender has nothing to do *)
 Definition stable (w : world) : Prop :=
